@@ -502,6 +502,31 @@ def issuedRawsF : List HOpF → List Bytes
   | .issue _ raw _ _ :: r => raw :: issuedRawsF r
   | _ :: r => issuedRawsF r
 
+/-! ## The handshake timeout (`newScrambleSuitClientConn`) -/
+
+/-- what `Dial` does to the underlying conn, as far as the 60 s handshake deadline is concerned -/
+inductive ConnEv
+  /-- `SetDeadline(now + clientHandshakeTimeout)`: read and write half armed -/
+  | arm
+  /-- `SetDeadline(time.Time{})` -/
+  | clear
+  | write
+  | read
+deriving DecidableEq, Repr
+
+/-- a successful `newScrambleSuitClientConn`: start the timeout, `clientHandshake` (ticket: one
+    write and done; UniformDH: one write and `reads` ≥ 1 reads until the response is complete),
+    stop the timeout — for BOTH kinds, the stop is in the caller of `clientHandshake` -/
+def dialTrace (ticket : Bool) (reads : Nat) : List ConnEv :=
+  [.arm] ++ (if ticket then [.write] else .write :: List.replicate reads .read) ++ [.clear]
+
+/-- is the deadline armed after a trace (last `arm`/`clear` wins) -/
+def armedAfter : List ConnEv → Bool → Bool
+  | [], a => a
+  | .arm :: r, _ => armedAfter r true
+  | .clear :: r, _ => armedAfter r false
+  | _ :: r, a => armedAfter r a
+
 /-! ## Reference server (no server exists in the repository) -/
 
 /-- what the server learns from a complete client first flight -/
